@@ -408,6 +408,15 @@ def screedRc (s : List Nat) : Option (List Nat) :=
                                    else if b == 84 then 65 else 78))
   else none
 
+/-- the k-mers one strand contributes in one frame:
+    `for start in range(0, len(s) - ksize + 1 - frame, 3): s[start + frame : start + frame + ksize]` -/
+def kmersOf (ksize : Nat) (s : List Nat) (frame : Nat) : List (List Nat) :=
+  (range3 ((s.length : Int) - ksize + 1 - frame)).map (fun start => (s.drop (start + frame)).take ksize)
+
+/-- `for frame in (0, 1, 2)`: forward k-mers, then reverse-complement k-mers -/
+def sixFrameKmers (ksize : Nat) (sequence seqrc : List Nat) : List (List Nat) :=
+  [0, 1, 2].flatMap (fun frame => kmersOf ksize sequence frame ++ kmersOf ksize seqrc frame)
+
 /-- `MinHash.kmers_and_hashes` for an ASCII `str` (`bs` its bytes): the list the generator yields,
     or the exception it ends with.  `none` as a hash stands for Python's `None`. -/
 def kmersAndHashes (hash : List Nat → Nat) (hf : HashFn) (k : Nat) (bs : List Nat) (force isProtein : Bool) :
@@ -428,13 +437,9 @@ def kmersAndHashes (hash : List Nat → Nat) (hf : HashFn) (k : Nat) (bs : List 
       match screedRc sequence with
       | none => .error .assertionError
       | some seqrc =>
-        let kmersOf (s : List Nat) (frame : Nat) : List (List Nat) :=
-          (range3 ((s.length : Int) - ksize + 1 - frame)).map
-            (fun start => (s.drop (start + frame)).take ksize)
-        let kmers := [0, 1, 2].flatMap (fun frame => kmersOf sequence frame ++ kmersOf seqrc frame)
         -- `hashvals[hash_i]` would raise IndexError if there were fewer hashes than k-mers;
         -- the assertion above makes the two lengths equal
-        .ok (kmers.zip hv)
+        .ok ((sixFrameKmers ksize sequence seqrc).zip hv)
     else
       -- `max(len(sequence) - ksize + 1, 0)`
       let nKmers : Nat := sequence.length + 1 - ksize
